@@ -117,6 +117,12 @@ namespace AIToolbox {
                     result[0] = std::min(result[0], point[s] / compPoint[s]);
 
             unscaledValue = result[0] * (ubV.second[compatiblePoints[0]] - compPoint.transpose() * cornerVals);
+            // A point above the corner surface cannot lower the bound: the LP
+            // would give it weight zero.
+            if (unscaledValue > 0.0) {
+                result[0] = 0.0;
+                unscaledValue = 0.0;
+            }
         } else {
             /*
              * Here we run the LP.
